@@ -63,9 +63,9 @@ def _boundary(n, ti, lab):
     return F.boundary_set(n, F.spanning_trees(n)[ti], lab)
 
 
-def run_case(prog, res=None):
+def run_case(prog, res=None, model=None):
     try:
-        m, Wd = sup.fit_program(prog)
+        m, Wd = sup.fit_program(prog, model=model)
         obs = sup.observe(m)
     except Horizon:
         raise
@@ -110,6 +110,13 @@ def viol(prog, prob, sym, obs=None):
             "fingerprint": "%s._find_prototypes: %s" % (prog["model"], sym)}
 
 
+_PREV = {}
+
+
+def _key(prog):
+    return sup.cache_key(prog) if prog["model"] in ("SupervisedOPF", "SemiSupervisedOPF") else None
+
+
 def run(shard, seed):
     res = Result()
     k = 0
@@ -127,11 +134,15 @@ def run(shard, seed):
             res.sample(prog, 1)
         k += 1
         if v:
+            prev = _PREV.get(_key(prog))
+            if prev is not None and "previous" not in v["program"]:
+                v["program"] = dict(v["program"], previous=prev)
             res.violations.append(v)
             if res.full:
                 break
+        _PREV[_key(prog)] = prog
     return res
 
 
 def replay(case):
-    return run_case(case["program"])
+    return sup.replay_with_history(run_case, case["program"])
